@@ -164,6 +164,23 @@ def run_standard(case):
         boundary.append(model.boundary_summary())
         if case.get("idempotence") and ns.finalised:
             idempotence(fs, model, case, kw, mon, ins=False)
+        if case.get("cap_at_convergence") and ns.finalised and res["segments"] == 1 and not kw.get("prior_sampling"):
+            # boundary value of the iteration cap: the same seeded run with max_iteration equal to the iteration at which the tolerance was first met must
+            # stop at the same iteration, consume its live points and return the same result
+            d1, e1 = result_digest(fs, False)
+            model_c = zoo.make(case["model"], **case.get("model_kwargs", {}))
+            mon.model = model_c
+            mon.trace, mon.finalise_calls = [], 0
+            fs_c = FlowSampler(model_c, output=out + "-cap", resume=False, signal_handling=False, **dict(kw, max_iteration=int(ns.iteration)))
+            fs_c.run(plot=False, save=False)
+            mon.bump("C15.cap_at_convergence_checked")
+            d2, e2 = result_digest(fs_c, False)
+            if not fs_c.ns.finalised:
+                mon.problem("C15", "cap-equal-to-convergence-iteration:live-points-not-consumed", dict(iteration=int(fs_c.ns.iteration), condition=float(fs_c.ns.condition), tolerance=float(fs_c.ns.tolerance), n=len(fs_c.ns.nested_samples)))
+            elif d2 != d1:
+                mon.problem("C15", "cap-equal-to-convergence-iteration:result-differs-from-uncapped-run", dict(n_capped=len(fs_c.ns.nested_samples), n_uncapped=len(ns.nested_samples)))
+            shutil.rmtree(out + "-cap", ignore_errors=True)
+            mon.model = model
         res.update(iterations=int(ns.iteration), nlive=int(ns.nlive), n_nested=len(ns.nested_samples), finalised=bool(ns.finalised),
                    logZ=float(fs.logZ), logZ_error=float(fs.logZ_error), populations=int(getattr(ns._flow_proposal, "populated_count", 0)),
                    trainings=int(ns._flow_proposal.training_count), evals=int(ns.total_likelihood_evaluations),
@@ -241,6 +258,11 @@ def run_ins(case):
             mon.stop_at_iteration = resume_points.pop(0) if resume_points else None
             fs = FlowSampler(model, output=out, resume=resume, importance_nested_sampler=True, signal_handling=False, **kw)
             mon.min_samples = fs.ns.min_samples
+            sc, tl = kw.get("stopping_criterion", "ratio"), kw.get("tolerance", 0.0)
+            sc = [sc] if isinstance(sc, str) else list(sc)
+            tl = list(tl) if isinstance(tl, (list, tuple)) else [tl]
+            if len(sc) == len(tl):
+                mon.user_criteria = dict(pairs=[(str(a), float(b)) for a, b in zip(sc, tl)], any=kw.get("check_criteria", "any") == "any")
             try:
                 fs.run(plot=False, save=case.get("save", False), **case.get("run_kwargs", {}))
                 res["segments"] += 1
